@@ -55,7 +55,7 @@ _extra = {'kernel_calls': 0, 'particles_checked': 0, 'ambiguous_key_particles': 
 def config(tier):
     e = {'NUMBA_THREADING_LAYER': 'workqueue'}
     if tier == 'quick':
-        return dict(shards=4, examples=1000, numba_threads=16, boundscheck=[True, False, False, False], shrink_calls=150, soft_s=105, env=e)
+        return dict(shards=8, examples=500, numba_threads=16, boundscheck=[True, False, False, False], shrink_calls=150, soft_s=170, env=e)
     return dict(shards=8, examples=10000, numba_threads=16, boundscheck=[True, False, False, False], shrink_calls=400, soft_s=800, env=e)
 
 
